@@ -59,6 +59,16 @@ _c("C16", "exploration", "property-based testing (proptest) of the real SOCKS5 l
    "Generated greetings, requests (all commands, address types, versions) and segmentations against the real front-end -> client -> TLS -> server -> loopback targets, with a neighbour connection and a fresh connection afterwards. Sampling; negatives are evaluated after the front-end replied or closed.",
    "kernel loopback timing; one shared world per worker thread; localhost resolves to 127.0.0.1")
 
+_c("C13", "exploration", "property-based testing (proptest) of request histories through the real SOCKS5 front-end with a counting TCP forwarder in front of the real server; invariants over the connection counts",
+   "Generated sequential/bursty request histories, pool settings varied; the forwarder counts TLS connections opened and still open. r2 (second non-overlapping request reuses) is armed; r3+ and the bound are listed known findings with witnesses (sessions are never returned to the pool).",
+   "kernel loopback; forwarder accept count = sessions dialled; histories shorter than the 30 s check interval")
+_c("C15", "exploration", "property-based testing (proptest): end-to-end datagram sequences in lock-step through create_udp_proxy on loopback, and the server relay fed a reference UDP-over-TCP stream with generated fragmentation",
+   "Datagram sizes 1..65507 with keyed contents in both directions through the real client/server; server relay alone with cuts inside length prefixes and several packets per chunk; exactly-one/identical/ordered delivery and silence of a decoy socket.",
+   "kernel loopback UDP in lock-step (no socket buffer loss); reference UoT framing")
+_c("C19", "exploration", "property-based testing (proptest) of process-level histories, each in a fresh child process, against a scripted reference server that observes the client's plaintext; reference scheme family with distinct fixed sizes",
+   "1-4 sessions of one real Client per process, server scheme per connection (parsable with distinct sizes / unparsable), default used before or not; packet sizes, announced md5, preamble padding and push counts judged against the scheme that must be in force. Plus the real server session's push decision in Lab-M.",
+   "one child process per history; the reference server's plaintext view; packets delimited by the child's known call pattern")
+
 NOT_YET = {}
 
 def main():
